@@ -165,6 +165,8 @@ package flow
 // cold start: a full bucket yields threshold/coldFactor when the slope is the one the constructor computes
 //@ lemma warmup-cold-start {C11}: forall thr Real :: forall cf Int :: forall mx Int :: forall wn Int :: thr > 0.0 && cf >= 2 && mx > wn ==> 1.0 / (R(mx - wn) * (R(cf - 1) / thr / R(mx - wn)) + 1.0 / thr) == thr / R(cf)
 
+// (the constructor leaves the loaded rule as the caller passed it: later loads are compared with it. The pinned tree
+// wrote the default cold factor into the rule: repaired)
 //@ func NewWarmUpTrafficShapingCalculator(owner, rule) r
 //@   props C11
 //@   requires rule != nil && rule.Threshold >= 0.0 && rule.WarmUpPeriodSec > 0 && rule.WarmUpColdFactor != 1
@@ -180,7 +182,8 @@ package flow
 //@   ensures[inv] wuInv(cast(dynptr(r), WarmUpTrafficShapingCalculator))
 //@   ensures[cold-start-slope] wuSlope(cast(dynptr(r), WarmUpTrafficShapingCalculator))
 //@   ensures[empty-bucket] cast(dynptr(r), WarmUpTrafficShapingCalculator).storedTokens == 0
-//@   modifies rule.WarmUpColdFactor
+//@   ensures[loaded-rule-left-untouched]{C11,C13,C14} frame()
+//@   modifies nothing
 
 // ---- C13: whole-set load. The grouping loop must cope with any element, including nil; the rebuild itself
 // (onRuleUpdate) is under a separate contract.
